@@ -27,6 +27,8 @@ LEASE_JUMP = 61.0  # the S3 metadata lock's lease is 60 s
 
 FIELDS_P = [{"id": 1, "name": "a", "type": "long", "required": True}, {"id": 2, "name": "s", "type": "string", "required": False}]
 FIELDS_B = [{"id": 1, "name": "b", "type": "long", "required": True}]
+# same schema_id as A, one more (optional) column: two releases of one application racing to create the table
+FIELDS_C = FIELDS_P + [{"id": 3, "name": "e", "type": "string", "required": False}]
 
 STATES = ["absent", "healthy", "pointer_lost", "v0_no_pointer"]
 COMBOS = [("createA", "createB"), ("createA_append", "createB"), ("createA", "open_or_create"),
@@ -42,6 +44,8 @@ def _schema(kind: str):
         return Schema(schema_id=1, fields=[dict(f) for f in FIELDS_P])
     if kind == "B":
         return Schema(schema_id=2, fields=[dict(f) for f in FIELDS_B])
+    if kind == "C":
+        return Schema(schema_id=1, fields=[dict(f) for f in FIELDS_C])
     raise ValueError(kind)
 
 
@@ -156,8 +160,9 @@ class C18World(TableWorld):
                 except ValueError:
                     t = create_table(loc, _schema("A"))
                 return seen(t)
-            if kind in ("createA_append", "create_none_append"):
-                t = create_table(loc, _schema("A")) if kind == "createA_append" else create_table(loc)
+            if kind in ("createA_append", "create_none_append", "createC_append"):
+                t = (create_table(loc, _schema("A")) if kind == "createA_append" else
+                     create_table(loc, _schema("C")) if kind == "createC_append" else create_table(loc))
                 try:
                     ok = t.append_records([row(10 + i)])
                     return seen(t, {"append": bool(ok)})
@@ -205,7 +210,8 @@ class C18World(TableWorld):
                 supplied = []
                 for k in self.kinds:
                     supplied.append({"createA": ["a", "s"], "createA_append": ["a", "s"], "createB": ["b"],
-                                     "open_or_create": ["a", "s"], "create_none_append": []}[k])
+                                     "open_or_create": ["a", "s"], "create_none_append": [],
+                                     "createC_append": ["a", "s", "e"]}[k])
                 if fields not in supplied:
                     problems.append(f"persisted schema {fields} is none of the supplied {supplied}")
             for n, r in results.items():
@@ -221,7 +227,8 @@ class C18World(TableWorld):
                 for i, a in enumerate(acts):
                     r = results.get(a.name, {})
                     if r.get("append") is True:
-                        want.append(reader.canon_row(row(10 + i)))
+                        # a record lacking an optional column of the persisted schema is stored with NULL there
+                        want.append(reader.canon_row(dict({f: None for f in fields}, **row(10 + i))))
                     if r.get("append") == "ValueError" and fields == ["a", "s"] and "No schema" in r.get("msg", ""):
                         problems.append(f"{a.name}: schema-less append refused although the table has a schema")
                     if r.get("append") is True and not fields:
@@ -282,7 +289,8 @@ def configs(tier: str, seed: int) -> List[Dict[str, Any]]:
                     "max_exec": int(_os.environ["DSMC_MAX_EXEC"]) if _os.environ.get("DSMC_MAX_EXEC") else None})
 
     light = [("createA", "createB"), ("createA", "open_or_create")]
-    heavy = [("createA_append", "createB"), ("create_none_append", "createA"), ("createA_append", "createA_append")]
+    heavy = [("createA_append", "createB"), ("create_none_append", "createA"), ("createA_append", "createA_append"),
+             ("createA_append", "createC_append")]
     k = seed
     for init in STATES:
         for combo in light:
@@ -295,7 +303,7 @@ def configs(tier: str, seed: int) -> List[Dict[str, Any]]:
                 add("s3", init, combo, bound=bound, sample=(init == "absent" and combo == light[0]))
                 add("local", init, combo, bound=bound)
         for combo in heavy:
-            hb = (1 if combo == heavy[2] else 2) if tier == "quick" else (2 if combo == heavy[2] else 3)
+            hb = (1 if combo in heavy[2:] else 2) if tier == "quick" else (2 if combo in heavy[2:] else 3)
             if tier == "quick":
                 add(("s3", "local")[k % 2], init, combo, bound=hb)
                 k += 1
